@@ -10,6 +10,7 @@ class C04Queue(CQBase):
     gens = [Gen("ConsensusQueueGen", "ConsensusQueueGen_prune_cover", "bfs", tiers=("quick",), timeout=900, cap=1000),
             Gen("ConsensusQueueGen", "ConsensusQueueGen_prune_cover", "bfs", tiers=("thorough",), timeout=900, cap=20000),
             Gen("ConsensusQueueGen", "ConsensusQueueGen_ev_cover", "bfs", tiers=("quick",), timeout=900, cap=1500),
+            Gen("ConsensusQueueGen", "ConsensusQueueGen_order_cover", "bfs", tiers=("quick", "thorough"), timeout=600, cap=1500),
             Gen("ConsensusQueueGen", "ConsensusQueueGen_sig_cover", "bfs", tiers=("quick",), timeout=900, cap=1500),
             Gen("ConsensusQueueGen", "ConsensusQueueGen_ev_sim", "simulate", num=100, depth=14, tiers=("quick",), cap=500),
             Gen("ConsensusQueueGen", "ConsensusQueueGen_sig_sim", "simulate", num=100, depth=16, tiers=("quick",), cap=500),
